@@ -77,6 +77,24 @@ def u_matrix_helpers(root):
     c.ensures.append(post)
     eng.verify("MatrixGaussianError", "_calculate_cov_mat_from_cor_mat_and_error_array", None, lambda e, st, me_: {"error_array": E_, "corr_mat": C_}, contract=c)
 
+    # the same helper with ONE uncertainty for all points (a 0-d array): the unit-diagonal check applies whatever the shape of the uncertainties
+    # (the matrix arithmetic of this case - numpy broadcasting of a 1 x 1 outer product - is left to the native side: only acceptance / rejection is decided here)
+    from . import c03 as _c03
+    es = VNum(z3.Real("one_uncertainty_for_all_points"))
+    es.ndim = z3.IntVal(0)
+    saved_lib = {k_: eng.lib.get(k_) for k_ in ("np.outer", "class:CovMat")}
+    eng.lib["np.outer"] = lambda e, st, a, kw, node: _c03.Val("outer_product")
+    eng.lib["class:CovMat"] = lambda e, st, a, kw, node: e.alloc(st, "covmat", "CovMat")
+    c = Contract("MatrixGaussianError", "_calculate_cov_mat_from_cor_mat_and_error_array")
+    c.requires.append(lambda vw: n >= 0)
+    c.ensures.append(lambda vw: [("raises only for a correlation matrix whose diagonal is not 1", z3.Not(unit_diag))] if vw.flow == "raise" else [("a scalar uncertainty is accepted only with a unit-diagonal correlation matrix, like a vector", unit_diag)])
+    eng.verify("MatrixGaussianError", "_calculate_cov_mat_from_cor_mat_and_error_array", None, lambda e, st, me_: {"error_array": es, "corr_mat": C_}, contract=c, tag="[one uncertainty for all points]")
+    for k_, v_ in saved_lib.items():
+        if v_ is None:
+            eng.lib.pop(k_, None)
+        else:
+            eng.lib[k_] = v_
+
     c = Contract("MatrixGaussianError", "_calculate_cov_mat_from_cov_rel")
     c.requires.append(lambda vw: n >= 0)
     c.ensures.append(lambda vw: [("cov[a][b] = cov_rel[a][b] ref_a ref_b (signed reference)", z3.And(mat(vw).rows == n, z3.ForAll([i, j], z3.Implies(rng(), mat(vw).at(i, j) == M_.arr[i][j] * (Rf.arr[i] * Rf.arr[j])))))])
@@ -297,6 +315,16 @@ def u_constraint_forms(root):
             eng.verify("GaussianMatrixParameterConstraint", "uncertainties", "getter", init, contract=c, tag=f"[{form}]")
             eng.contracts.pop(("GaussianMatrixParameterConstraint", "uncertainties_rel", "getter"), None)
             mk(eng, "GaussianMatrixParameterConstraint", "uncertainties", "getter", result=lambda vw, form=form: VSeq(FnArr(lambda a: spec_unc(vw, vw.pre, form)(a)), n))
+        if form.startswith("cor"):
+            # the reverse direction: relative uncertainties of a correlation form are the SIGNED ratio, so that relative x value gives back the absolute ones
+            # (and cor o ((r v)(r v)^T) the same covariance, lemma (e)) for values of either sign
+            c = Contract("GaussianMatrixParameterConstraint", "uncertainties_rel", "getter")
+            vv = lambda vw: F(vw, vw.pre, "_values")
+            c.requires.append(lambda vw, form=form: z3.And(stored(vw, vw.pre, form), z3.ForAll([i], z3.Implies(z3.And(0 <= i, i < n), vv(vw).arr[i] != 0))))
+            c.ensures.append(lambda vw, form=form: [("relative uncertainties x values = absolute uncertainties, for values of either sign (as given, or the signed ratio)",
+                                                     z3.And(vw.result.len == n, z3.ForAll([i], z3.Implies(z3.And(0 <= i, i < n), vw.result.arr[i] * vv(vw).arr[i] == spec_unc(vw, vw.pre, form)(i)))))])
+            eng.verify("GaussianMatrixParameterConstraint", "uncertainties_rel", "getter", init, contract=c, tag=f"[{form}]")
+            eng.contracts.pop(("GaussianMatrixParameterConstraint", "uncertainties_rel", "getter"), None)
         c = Contract("GaussianMatrixParameterConstraint", "cov_mat", "getter")
         c.requires.append(lambda vw, form=form: stored(vw, vw.pre, form))
         c.ensures.append(lambda vw, form=form: [("absolute covariance of the form: given | cov_rel o v v^T | cor o u u^T", z3.And(vw.result.rows == n, vw.result.cols == n, z3.ForAll([i, j], z3.Implies(rng, vw.result.at(i, j) == spec_cov(vw, vw.pre, form)(i, j)))))])
